@@ -266,6 +266,58 @@ fn h3_judge(ctx: &Ctx, obs: &BTreeMap<String, String>) -> Result<(), String> {
     Ok(())
 }
 
+/* ---- facts recomputed after the arena memo (lru = 1) was evicted by another root ---- */
+
+const ROOT_BAD: &str = "let Ret = @(intrinsic(ret)) in let Int64 = @(intrinsic(i64)) in let x : Int64 = \"s\" in let y : Int64 = @(import(\"lib.zy\")) in ret y";
+
+fn facts(session: &CompilerSession, dir: &Path, root: &str) -> String {
+    let path = dir.join(root);
+    let first = observe(session, dir, root);
+    let reports = match session.reports(&path) {
+        | Ok(r) => format!("{}", r.map(|r| r.reports.len()).unwrap_or(0)),
+        | Err(e) => format!("error {e}"),
+    };
+    let coverage = match session.coverage(&path) {
+        | Ok(c) => format!("{}", c.len()),
+        | Err(e) => format!("error {e}"),
+    };
+    // the analysis again: its memo may have been evicted in between
+    let again = observe(session, dir, root);
+    format!("{first} || reports {reports} || coverage {coverage} || again-equal {}", first == again)
+}
+
+fn oracles_facts(dir: &PathBuf) -> BTreeMap<String, String> {
+    std::fs::write(dir.join("bad.zy"), ROOT_BAD).unwrap();
+    let mut m = oracles_lib(dir);
+    m.insert("facts/bad".into(), facts(&CompilerSession::default(), dir, "bad.zy"));
+    m.insert("facts/root2".into(), facts(&CompilerSession::default(), dir, "root2.zy"));
+    m
+}
+
+fn h6_body(ctx: &Ctx) {
+    let dir = ctx.dir.clone();
+    let s = CompilerSession::default();
+    let worker = |label: &'static str, snap: CompilerSession, dir: PathBuf, root: &'static str| {
+        shuttle::thread::spawn(move || {
+            let r = salsa::Cancelled::catch(AssertUnwindSafe(|| facts(&snap, &dir, root)));
+            drop(snap);
+            record(label, r.unwrap_or_else(|_| "cancelled".into()));
+        })
+    };
+    let t1 = worker("t1", s.snapshot(), dir.clone(), "bad.zy");
+    let t2 = worker("t2", s.snapshot(), dir.clone(), "root2.zy");
+    t1.join().unwrap();
+    t2.join().unwrap();
+    record("own", facts(&s, &dir, "bad.zy"));
+}
+
+fn h6_judge(ctx: &Ctx, obs: &BTreeMap<String, String>) -> Result<(), String> {
+    expect_in(obs, "t1", &[("bad", &ctx.oracle["facts/bad"])])?;
+    expect_in(obs, "t2", &[("root2", &ctx.oracle["facts/root2"])])?;
+    expect_in(obs, "own", &[("bad", &ctx.oracle["facts/bad"])])?;
+    Ok(())
+}
+
 zydeco_utils::new_key_type! { pub struct NodeId; }
 pub enum Nodes {}
 impl Allocates<NodeId> for Nodes {}
@@ -449,6 +501,19 @@ pub fn all() -> Vec<Harness> {
             body: h4_body,
             judge: h4_judge,
             oracles: oracles_lib,
+        },
+        Harness {
+            name: "facts-after-eviction",
+            about: "no edits; two snapshot threads analyse different roots (one ill typed) sharing an import and then ask for the per-root facts (reports, coverage) and the analysis again, while the other thread's analysis evicts the single-entry arena memo; oracle: each thread's answers equal the fresh-session answers for its root, the repeated analysis equals the first, and the owner gets the same afterwards",
+            threads: 3,
+            bound_quick: 1,
+            bound_thorough: 2,
+            cap_quick: 40_000,
+            cap_thorough: 1_500_000,
+            window: Some(40),
+            body: h6_body,
+            judge: h6_judge,
+            oracles: oracles_facts,
         },
         Harness {
             name: "external-programs-shared-slot",
